@@ -55,7 +55,8 @@ def build_jobs():
             jobs.append({"name": "corpus:" + name, "kind": "shipped", "model": hw.model, "old": cases.jtree(old), "new": cases.jtree(new)})
     iface = [{"row": ["interface", "100GE1/0/1"], "kids": [{"row": ["trust", "dscp"], "kids": []}, {"row": ["mtu", "9000"], "kids": []}]}]
     iface2 = [{"row": ["interface", "100GE1/0/1"], "kids": []}]
-    for model in ("Huawei CE6870", "Huawei NE40E", "Huawei S5700"):
+    # (the last one differs from the first in letter case only: the database patterns are case-sensitive, so it is another hardware)
+    for model in ("Huawei CE6870", "Huawei NE40E", "Huawei S5700", "huawei ce6870"):
         jobs.append({"name": "hwvariant:" + model, "kind": "shipped", "model": model, "old": iface, "new": iface2})
     # one compiled ACL object shared by jobs; two overlapping (not nested) rules own a child with the same rule text but different
     # cant_delete; a row matched by both merges their children at match time; rows matched by only one of them follow
